@@ -164,7 +164,12 @@ func FixIdiomaticArray(input string) (string, error) {
 	const _TOKEN = "ARRAY"
 	indexes, err := FindArrayIndex(input)
 	if err != nil {
-		panic(err)
+		return "", err
+	}
+	for _, index := range indexes {
+		if index[1] <= index[0] {
+			return "", fmt.Errorf("unbalanced brackets")
+		}
 	}
 	offset := 0
 	for _, index := range indexes {
